@@ -51,6 +51,14 @@ def stream_sbridge(ctx: Ctx):
                     except Exception:  # noqa: BLE001
                         continue
                     cases.append((f"BEval {k} {cver(Version(val))} {coqrun.cbool(b)}", f"eval: {m} at {val}"))
+                    # the same atom written with the literal on the left (final literals only: see C11_reversed)
+                    if op != "~=" and "*" not in lit and not (Version(lit).is_prerelease or Version(lit).is_postrelease):
+                        mr = MarkerExpression(name, op, lit, True)
+                        try:
+                            br = mr.evaluate({name: val})
+                        except Exception:  # noqa: BLE001
+                            continue
+                        cases.append((f"BEvalRev {k} {cver(Version(val))} {coqrun.cbool(br)}", f"eval-rev: {mr} at {val}"))
     specs = []
     for op in OPS:
         for lit in ["3", "3.6", "3.7.1", "3.10", "3.9a1", "3.7.0rc1", "3.8.post1", "3.9.dev0", "3b2", "1!3"]:
